@@ -223,9 +223,7 @@ class Executor(StmtMixin, ExprMixin, CallMixin, LibMixin):
                     self.oblige(p, f"must-raise:{exc}", sv.Not(cond(pre)), fi.node, assume=False)
                 if c.ensures is not None:
                     post = c.ensures(ctx, val)
-                    parts = _flatten_and(post)
-                    for pi, part in enumerate(parts, 1):
-                        self.oblige(p, "post" if len(parts) == 1 else f"post.{pi}", part, fi.node, assume=False)
+                    self.oblige(p, "post", post, fi.node, assume=False)
             elif kind == RAISE:
                 allowed = None
                 for exc in sorted(c.raises):
